@@ -70,7 +70,7 @@ func (v vexp) String() string {
 // affine is a unary user function x -> x*k + c (wrapping int arithmetic).
 type affine struct{ k, c, id int }
 
-func (f affine) call(x int) int  { return x*f.k + f.c }
+func (f affine) call(x int) int { return x*f.k + f.c }
 func (f affine) String() string { return fmt.Sprintf("λx.x*%d%+d", f.k, f.c) }
 
 // f2 is deliberately neither commutative nor associative.
